@@ -62,7 +62,7 @@ func parseCommand(line string) *command {
 			return c
 		}
 		if !validDomain(rest) && !(verb == "EHLO" && validAddressLiteral(rest)) {
-			c.bad("helo-syntax", "%s argument %q is neither a domain nor an address literal", verb, rest)
+			c.bad("helo-domain", "%s argument %q is neither a domain nor an address literal", verb, rest)
 		}
 	case "DATA", "RSET", "QUIT", "STARTTLS", "NOOP":
 		c.verb = verb
